@@ -125,16 +125,29 @@ let handle0 (toks : string list) : string =
       let per_row = List.mapi (fun i _ -> List.map res_of (List.filter (fun (j, _, _) -> j = string_of_int i) ob)) h in
       let stray = List.exists (fun (j, _, _) -> (try int_of_string j >= List.length h with _ -> true)) ob in
       if stray then "chk one_result_per_row result-without-row" else
-      let m = gw_run0 cfg h in
+      (* mode T: WITH(STATETTL): rest = [ttl_ms; age_0; reap_0; age_1; reap_1; ...] (what happens before row i) *)
+      let (ttl_ops, ttl) =
+        (match mode, rest with
+         | "T", [t :: sched] ->
+             let rec go rows sched = (match rows, sched with
+                 | [], _ -> []
+                 | r :: rt, a :: p :: st ->
+                     (GtAge (Win.z_of_int (int_of_string a))) :: (if p = "1" then [GtReap] else []) @ (GtRow r :: go rt st)
+                 | r :: rt, _ -> GtRow r :: go rt []) in
+             (Some (go h sched), Win.z_of_int (int_of_string t))
+         | _, _ -> (None, Win.z_of_int 0)) in
+      let ttl_quiet = (match ttl_ops with Some ops -> gt_quiet0 ttl ops | None -> true) in
+      let m = (match ttl_ops with Some ops -> gt_run0 cfg ttl ops | None -> gw_run0 cfg h) in
+      let ttl_tag = (if ttl_ops <> None then " statettl_active_group_lost_rows" else "") in
       let agree = List.for_all2 (fun mo o ->
           match mo, o with
           | None, [] -> true
           | Some (k, vs), [(k', vs')] -> gw_key_eqb k k' && gw_all_close vs vs'
           | _, _ -> false) m per_row in
-      (match chk_C17_engine cfg h per_row with
+      (match (if ttl_quiet then chk_C17_engine cfg h per_row else None) with
        | Some cl ->
            if unfaithful && agree then Printf.sprintf "chk %s_casefold_binding" (string_of_clause cl)
-           else Printf.sprintf "chk %s" (string_of_clause cl)
+           else Printf.sprintf "chk %s%s" (string_of_clause cl) ttl_tag
        | None ->
            if not agree then
              let first = ref (-1) in
@@ -145,7 +158,7 @@ let handle0 (toks : string list) : string =
                     | Some (k, vs), [(k', vs')] when gw_key_eqb k k' && gw_all_close vs vs' -> ()
                     | _, _ -> first := i)) (List.combine m per_row);
              let mo = List.nth m !first in
-             Printf.sprintf "diff model_vs_window row=%d model=%s" !first
+             Printf.sprintf "diff %s row=%d model=%s" (if ttl_ops <> None then "statettl_model_vs_window" else "model_vs_window") !first
                (match mo with None -> "none" | Some (_, vs) -> String.concat "," (List.map show_q vs))
            else
              let e2e_bad =
@@ -157,8 +170,9 @@ let handle0 (toks : string list) : string =
                 | _, _ -> false) in
              if e2e_bad then "chk e2e_delivery sink-results-differ-from-window-results"
              else
-               (match chk_C17 cfg h per_row with
-                | Some cl -> Printf.sprintf "chk %s" (string_of_clause cl)
+               (match (if ttl_quiet then chk_C17 cfg h per_row else None) with
+                | Some cl -> Printf.sprintf "chk %s%s" (string_of_clause cl)
+                               (match cl with GcFiresIffSql3 | GcNoResultWhileFalseSql3 -> "" | _ -> ttl_tag)
                 | None ->
                     let fired = List.exists (fun o -> o <> []) per_row
                     and quiet = List.exists (fun o -> o = []) per_row in
